@@ -214,7 +214,12 @@ func runC19(c *vk.Ctx) {
 		shared.dir, _ = os.MkdirTemp("", "vfs19-")
 		sessions := make([]*c19session, k)
 		for j := range sessions {
-			cfg := genConfig(r, a, fmt.Sprintf("ses%d", j))
+			sid := fmt.Sprintf("ses%d", j)
+			if (i/4)%2 == 1 {
+				// namespaced ids that differ only in their last characters (what a gateway hands out)
+				sid = fmt.Sprintf("ussd-gateway-eu-west-1-session-%04d", j)
+			}
+			cfg := genConfig(r, a, sid)
 			h := a.History(r, r.Range(3, 14))
 			for x := range h {
 				if x > 0 && r.Chance(1, 12) {
